@@ -281,3 +281,49 @@ def h1(proj, rep, class_quals, require_memo=()):
                        mod, fn, text=f'{name}: mutation of {site[0]} with reset')
     rep.count('H1.mutators', n_mut)
     return n_mut
+
+
+# ------------------------------------------------------------------------------------------------ H5
+RULE_H5 = ('H5: query methods of a gate container (methods that read `self.gate_index_list` and return a value) are not memoised in an attribute of the '
+           'container: the gates are shared mutable objects (ParameterGate.set_args / setP / shift_qubit_index_ change them without changing the list), '
+           'so a cached unitary / state keyed on the list length or on `is None` goes stale. A method that stores a value computed from the gate list '
+           'into `self.<attr>` and returns that attribute on a later call is reported.')
+
+
+def h5(proj, rep, class_quals):
+    rep.rule('H5', RULE_H5)
+    n = 0
+    for cq in class_quals:
+        ci = proj.cls(cq)
+        m = ci.module
+        rep.touch(m)
+        for name, fi in ci.methods.items():
+            fn = fi.node
+            if name == '__init__':
+                continue
+            reads_gates = any(isinstance(x, ast.Attribute) and x.attr == 'gate_index_list' and isinstance(x.ctx, ast.Load) for x in ast.walk(fn)) or \
+                any(isinstance(x, ast.Attribute) and isinstance(x.value, ast.Name) and x.value.id == 'self' and x.attr in ('apply_state', 'num_qubit')
+                    for x in ast.walk(fn))
+            rets = [r for r in ast.walk(fn) if isinstance(r, ast.Return) and r.value is not None]
+            if not reads_gates or not rets:
+                continue
+            n += 1
+            stored = {}
+            for s in ast.walk(fn):
+                if isinstance(s, ast.Assign):
+                    for t in s.targets:
+                        if isinstance(t, ast.Attribute) and isinstance(t.value, ast.Name) and t.value.id == 'self':
+                            stored[t.attr] = s
+            cached_ret = None
+            for r in rets:
+                for x in ast.walk(r.value):
+                    if isinstance(x, ast.Attribute) and isinstance(x.value, ast.Name) and x.value.id == 'self' and x.attr in stored:
+                        cached_ret = (x.attr, r)
+            if cached_ret:
+                a, r = cached_ret
+                rep.violation('H5', f'{cq}.{name}', f'`{ast.unparse(stored[a])[:70]}` caches a value computed from the gate list and `{ast.unparse(r)[:60]}` hands it out again: '
+                              f'after ParameterGate.set_args / setP / shift_qubit_index_ (same number of gates) the stale value is returned', m, r)
+            else:
+                rep.ok('H5', f'{cq}.{name}', 'recomputed from the gate list on every call', m, fn, text=f'{cq}.{name} memo')
+    rep.count('H5.query_methods', n)
+    return n
